@@ -183,7 +183,7 @@ func CmdCheck(args []string) int {
 		wg.Add(1)
 		go func(k string, r *FnResult) {
 			defer wg.Done()
-			r.Discharge(SolveOptions{Timeout: *timeout, Dir: smtDir, NeedTwo: false, Select: sel(k)})
+			r.Discharge(SolveOptions{Timeout: *timeout, Dir: smtDir, NeedTwo: *tier == "thorough", Select: sel(k)})
 			if v := r.VacuityCheck(smtDir); v != "" {
 				mu.Lock()
 				vacuity[k] = v
@@ -201,6 +201,7 @@ func CmdCheck(args []string) int {
 	var fnsUnder, lemmas, trustedFns []string
 	trusted := map[string]bool{}
 	solverCount := map[string]int{}
+	agreeTwo := 0
 	solverSecs := 0.0
 	exit := 0
 	var notes []string
@@ -245,6 +246,9 @@ func CmdCheck(args []string) int {
 			if o.Result == "discharged" {
 				discharged++
 				solverCount[o.Solver]++
+				if o.Agree >= 2 {
+					agreeTwo++
+				}
 				solverSecs += o.Secs
 				if len(samples) < 12 {
 					samples = append(samples, map[string]interface{}{"obligation": o.Name, "verdict": "discharged", "solver": o.Solver, "seconds": round3(o.Secs), "at": o.Pos, "text": o.Text})
@@ -317,6 +321,7 @@ func CmdCheck(args []string) int {
 		"functions_under_contract": fnsUnder,
 		"lemmas":                   lemmas,
 		"discharged_by_solver":     solverCount,
+		"confirmed_by_two_solvers": agreeTwo,
 		"solver_seconds":           round3(solverSecs),
 		"undecided":                undecided,
 		"known_findings":           knownHits,
